@@ -136,3 +136,19 @@ def judge(ctx, res, what, case, min_overlap=1):
     ctx.count('executions_overlapping_another_thread', res['overlapped'])
     ctx.klass('thread stress: ' + what)
     return True
+
+
+# ------------------------------------------------------------------ hand-off
+_POOL = {}
+
+
+def in_worker(fn, *a, **kw):
+    """Run fn(*a, **kw) in this process's single long-lived worker thread and
+    wait for it (a reused pool of one): strictly sequential in time, another
+    thread in identity.  What a multi-step protocol remembers between its
+    steps must not depend on which thread ran which step."""
+    if 'pool' not in _POOL:
+        from concurrent.futures import ThreadPoolExecutor
+        _POOL['pool'] = ThreadPoolExecutor(max_workers=1,
+                                           thread_name_prefix='vmon-handoff')
+    return _POOL['pool'].submit(fn, *a, **kw).result()
